@@ -60,7 +60,7 @@ type indepThread struct {
 	Aux    int    `json:"aux"`
 	Coll   int    `json:"coll"`
 	Nota   int    `json:"nota"`   // filled in by the child for form=string (identity of the class's notation)
-	Derive int    `json:"derive"` // >0: the receiver is Set.And(instance <derive>, own set)
+	Derive int    `json:"derive"` // >0: the receiver is Set.Or(instance <derive>, own set)
 }
 
 type indepCase struct {
@@ -288,7 +288,7 @@ func prepThread[V any](th *indepThread, gen func(*rng) V, sh *indepShared) func(
 		}
 		if th.Derive > 0 {
 			first := sh.insts[th.Derive].(col.SetLike[V])
-			c = col.Set[V](nota).And(first, c.(col.SetLike[V]))
+			c = col.Set[V](nota).Or(first, c.(col.SetLike[V]))
 		}
 		sh.insts[th.Recv] = c
 		return c
@@ -805,9 +805,9 @@ func indepChild(specPath string) int {
 			scripts[g] = prepAny(&c.Threads[g], sh)
 		}
 		if c.Mode == "derivedset" && rep == 0 {
-			a := sh.insts[c.Threads[0].Recv].(interface{ GetCollator() age.CollatorLike[int] })
-			r := sh.insts[c.Threads[1].Recv].(interface{ GetCollator() age.CollatorLike[int] })
-			res.CollShared = a.GetCollator() == r.GetCollator()
+			ca := reflect.ValueOf(sh.insts[c.Threads[0].Recv]).MethodByName("GetCollator").Call(nil)[0].Interface()
+			cr := reflect.ValueOf(sh.insts[c.Threads[1].Recv]).MethodByName("GetCollator").Call(nil)[0].Interface()
+			res.CollShared = ca == cr
 		}
 		got := make([]string, nt)
 		var wg sync.WaitGroup
@@ -969,7 +969,7 @@ func descThread(th *indepThread) string {
 		s += fmt.Sprintf(" collator=#%d", th.Coll)
 	}
 	if th.Derive != 0 {
-		s += fmt.Sprintf(" (= Set.And(#%d, own))", th.Derive)
+		s += fmt.Sprintf(" (= Set.Or(#%d, own))", th.Derive)
 	}
 	return s + fmt.Sprintf(" seed=%d", th.Seed)
 }
@@ -1140,7 +1140,7 @@ func genIndep(prop string, seed uint64, tier, outDir string, count int) error {
 			pairs = append(pairs, [2]string{famList[i], famList[j]})
 		}
 	}
-	controls := []string{"samelist", "samecoll", "samefmt", "derivedset", "sharedread", "sharedread", "registry", "registry", "registry"}
+	controls := []string{"derivedset", "samelist", "samecoll", "samefmt", "derivedset", "sharedread", "sharedread", "registry", "samecoll"}
 	ngo := []int{2, 2, 2, 3, 4, 5, 8, 12, 16}
 	npair := 0
 	for len(cases) < count {
@@ -1211,7 +1211,7 @@ func genIndep(prop string, seed uint64, tier, outDir string, count int) error {
 				c.Threads = append(c.Threads, indepThread{Fam: "mutate", Kind: "list", Via: "coll", Ety: 0, Seed: s, Recv: 101})
 			}
 		case "samecoll":
-			c.Expect = false
+			// one collator used by two goroutines: clean since a call works on a per-call copy (D29)
 			for g := 0; g < 2; g++ {
 				c.Threads = append(c.Threads, indepThread{Fam: "rank", Kind: "slice", Via: "agent", Ety: 2, Seed: r.next(), Recv: 100*(g+1) + 1, Aux: 102})
 			}
@@ -1221,10 +1221,12 @@ func genIndep(prop string, seed uint64, tier, outDir string, count int) error {
 				c.Threads = append(c.Threads, indepThread{Fam: "format", Kind: "list", Via: "agent", Ety: 0, Seed: r.next(), Recv: 100*(g+1) + 1, Aux: 102})
 			}
 		case "derivedset":
-			// known finding: the result of Set.And/Or/Sans/Xor keeps the FIRST operand's collator
-			c.Expect = false
-			c.Threads = append(c.Threads, indepThread{Fam: "search", Kind: "set", Via: "coll", Ety: 0, Seed: r.next(), Recv: 101, Coll: 103})
-			c.Threads = append(c.Threads, indepThread{Fam: "search", Kind: "set", Via: "coll", Ety: 0, Seed: r.next(), Recv: 201, Coll: 103, Derive: 101})
+			// the result of Set.And/Or/Sans/Xor keeps the FIRST operand's collator instance: searching
+			// operand and result concurrently was a race until a collator call stopped writing the
+			// collator (D29, former known finding C19-derived-set-collator); observed on every run
+			ety := []int{0, 2, 5, 5}[r.intn(4)]
+			c.Threads = append(c.Threads, indepThread{Fam: "search", Kind: "set", Via: "coll", Ety: ety, Seed: r.next(), Recv: 101, Coll: 103})
+			c.Threads = append(c.Threads, indepThread{Fam: "search", Kind: "set", Via: "coll", Ety: ety, Seed: r.next(), Recv: 201, Coll: 103, Derive: 101})
 		}
 		cases = append(cases, c)
 	}
@@ -1343,6 +1345,26 @@ func genIndep(prop string, seed uint64, tier, outDir string, count int) error {
 			pairSeen[a+"+"+b]++
 		}
 	}
+	// the former known finding: is the collator race between a set and a set derived from it still there?
+	derivedCases, derivedRaces, derivedDiffer := 0, 0, 0
+	var derivedFrames []string
+	for i := range outs {
+		if outs[i].c.Mode != "derivedset" {
+			continue
+		}
+		derivedCases++
+		derivedRaces += outs[i].race.Count
+		if !(outs[i].res.Equal && !outs[i].hang && outs[i].crash == "") {
+			derivedDiffer++
+		}
+		derivedFrames = append(derivedFrames, outs[i].race.Frames...)
+	}
+	knownObs := []map[string]any{{
+		"id":          "C19-derived-set-collator",
+		"still_fails": derivedRaces > 0,
+		"detail": fmt.Sprintf("%d run(s) of the program 'goroutine 1 searches set a, goroutine 2 searches Set.Or(a, b)' (12+ repetitions each): %d race report(s) %v, %d run(s) with results differing from the sequential ones",
+			derivedCases, derivedRaces, derivedFrames, derivedDiffer),
+	}}
 	if controlCases > 0 && controlRaces == 0 {
 		return fmt.Errorf("the race detector reported nothing for %d control programs that share an instance on purpose: the detection machinery is not working", controlCases)
 	}
@@ -1354,7 +1376,7 @@ func genIndep(prop string, seed uint64, tier, outDir string, count int) error {
 	}
 	meta.Extra = map[string]any{"family_pairs_covered": len(pairSeen), "family_pairs": pairSeen, "control_cases": controlCases,
 		"control_cases_with_race_report": controlRaces, "race_frames": raceFrames, "repetitions_per_case": reps,
-		"element_types": etyNames, "children_in_parallel": par}
+		"element_types": etyNames, "children_in_parallel": par, "known_finding_observations": knownObs}
 	meta.Explain = "Definition the_case := nth {case} cases (IC [] true true false true).\n" +
 		"Definition Report := Eval vm_compute in (case_report the_case).\nPrint Report.\n"
 	shardSize := 150
